@@ -142,3 +142,16 @@ def compositions(draw, total, max_parts=6):
     if left > 0:
         parts.append(left)
     return parts
+
+
+@st.composite
+def shipped_recipe(draw):
+    """A cheap shipped benchmark problem as recipe (used by the differential checks)."""
+    name = draw(st.sampled_from(["hill", "shekel", "rastrigin", "xsquared", "gkls"]))
+    if name in ("hill", "shekel"):
+        arg = draw(st.integers(0, 999))
+    elif name in ("rastrigin", "xsquared"):
+        arg = draw(st.integers(1, 4))
+    else:
+        arg = [draw(st.integers(2, 4)), draw(st.integers(1, 100))]
+    return {"shipped": [name, arg], "density": 10}
